@@ -42,6 +42,12 @@ func (e *Engine) Run(fn *ssa.Function) *Result {
 		if e.Opt.StopAtFirst && len(e.res.Findings) > 0 {
 			break
 		}
+		if e.Opt.WallLimit > 0 && time.Since(t0) > e.Opt.WallLimit {
+			// a changed tree can make the path space explode: give up (inconclusive unless a
+			// counterexample was found already) instead of running for hours
+			e.res.Unwinds = append(e.res.Unwinds, fmt.Sprintf("wall-clock limit %v reached with %d states pending", e.Opt.WallLimit, len(e.work)))
+			break
+		}
 		if e.Opt.GraceAfterFinding > 0 {
 			// a counterexample that is not a listed finding decides the obligation (violated, if it
 			// replays); the exploration goes on for a while to collect other counterexamples, but a
